@@ -226,6 +226,8 @@ class Session(object):
         if key not in self.cx._cache:
             fx = FunctionCtx(self, c["module"], c["name"], c.get("fdef"), c)
             fx.spec_evaluator = lambda fx=fx: Evaluator(fx)
+            from .engine import Executor
+            fx.executor = Executor(fx)
             self.cx._cache[key] = fx
         return self.cx._cache[key]
 
@@ -297,6 +299,11 @@ class Session(object):
         except AttachError as e:
             res["status"] = "attach-error"
             res["notes"].append("contract does not attach: %s" % e)
+            return res
+        except (z3.Z3Exception, KeyError, AttributeError, TypeError, IndexError, ValueError) as e:
+            # an engine limitation met on code it was not written for: undecided, never a verdict
+            res["status"] = "outside"
+            res["notes"].append("engine could not translate the function (%s: %s)" % (type(e).__name__, str(e)[:200]))
             return res
         res["notes"] += fx.notes
         axioms = self.cx.all_axioms()
